@@ -44,7 +44,7 @@ def _run_dask(
     else:
         graph = dict(
             (f"{name}-{data.name}-{index}", (func, item))
-            for index, item in enumerate(data.__dask_keys__())
+            for index, item in enumerate(dask.core.flatten(data.__dask_keys__()))
         )
     items = list(graph.keys())
     result_name = f"{name}-{data.name}-result"
